@@ -228,7 +228,7 @@ Proof.
   - rewrite (IH Hs). replace (c <=? e) with false by (symmetry; apply Z.leb_gt; lia). reflexivity.
   - replace (c <=? e) with true by (symmetry; apply Z.leb_le; lia).
     assert (Hall : all_ge c l) by (apply (all_ge_weaken e); assumption).
-    rewrite (all_ge_vested c l Hall). f_equal; [lia|]. f_equal.
+    rewrite (all_ge_vested c l Hall). rewrite Z.add_0_r. f_equal. f_equal.
     clear -Hall. induction l as [|[e' a'] l IH]; [reflexivity|]. cbn [filter fst].
     assert (c <= e') by (apply (Hall e' a'); left; reflexivity).
     replace (c <=? e') with true by (symmetry; apply Z.leb_le; lia).
@@ -265,4 +265,510 @@ Lemma pos_from_epoch c t : pos (from_epoch c t) = from_epoch c (pos t).
 Proof.
   unfold pos, from_epoch. induction t as [|x t IH]; [reflexivity|]. cbn [filter].
   destruct (c <=? fst x) eqn:E1, (0 <? snd x) eqn:E2; cbn [filter]; rewrite ?E1, ?E2, IH; reflexivity.
+Qed.
+
+Lemma from_epoch_id c t : all_ge c t -> from_epoch c t = t.
+Proof.
+  induction t as [|[e a] t IH]; intros H; [reflexivity|]. unfold from_epoch in *. cbn [filter fst].
+  assert (c <= e) by (apply (H e a); left; reflexivity).
+  replace (c <=? e) with true by (symmetry; apply Z.leb_le; lia).
+  f_equal. apply IH. intros x y Hin. apply (H x y). right. assumption.
+Qed.
+Lemma pos_all_ge c t : all_ge c t -> all_ge c (pos t).
+Proof. intros H e a Hin. unfold pos in Hin. apply filter_In in Hin. apply (H e a). tauto. Qed.
+
+(* what is still locked from epoch c on vests later exactly as before *)
+Lemma from_epoch_vested c t e : c <= e -> vested_sum (from_epoch c t) e = vested_sum t e - vested_sum t c.
+Proof.
+  intros Hce. induction t as [|[ep a] t IH]; [reflexivity|]. unfold from_epoch in *. cbn [filter fst].
+  rewrite !vested_sum_cons.
+  destruct (c <=? ep) eqn:E; zb.
+  - rewrite vested_sum_cons, IH. replace (ep <? c) with false by (symmetry; apply Z.ltb_ge; lia).
+    destruct (ep <? e); lia.
+  - rewrite IH. replace (ep <? c) with true by (symmetry; apply Z.ltb_lt; lia).
+    replace (ep <? e) with true by (symmetry; apply Z.ltb_lt; lia). lia.
+Qed.
+
+(* ------------------------------------------------------------------------------------------ *)
+(* merge *)
+
+Lemma merge_nil_l (b : table) : merge [] b = b.
+Proof. destruct b; reflexivity. Qed.
+Lemma merge_nil_r (a : table) : merge a [] = a.
+Proof. destruct a as [|[e x] a]; reflexivity. Qed.
+Lemma merge_cons_cons ea xa (a : table) eb xb (b : table) :
+  merge ((ea, xa) :: a) ((eb, xb) :: b) =
+  if ea <? eb then (ea, xa) :: merge a ((eb, xb) :: b)
+  else if eb <? ea then (eb, xb) :: merge ((ea, xa) :: a) b
+  else (ea, xa + xb) :: merge a b.
+Proof. reflexivity. Qed.
+
+Ltac merge_ind a b IHa IHb :=
+  induction a as [|[?ea ?xa] a IHa]; intros b;
+  [rewrite merge_nil_l|
+   induction b as [|[?eb ?xb] b IHb];
+   [rewrite merge_nil_r|rewrite merge_cons_cons]].
+
+Lemma merge_sum a : forall b, tbl_sum (merge a b) = tbl_sum a + tbl_sum b.
+Proof.
+  merge_ind a b IHa IHb; [cbn; lia|cbn; lia|].
+  destruct (ea <? eb); [|destruct (eb <? ea)]; rewrite !tbl_sum_cons.
+  - rewrite IHa, tbl_sum_cons. lia.
+  - rewrite IHb, tbl_sum_cons. lia.
+  - rewrite IHa. lia.
+Qed.
+
+Lemma merge_vested c a : forall b, vested_sum (merge a b) c = vested_sum a c + vested_sum b c.
+Proof.
+  merge_ind a b IHa IHb; [cbn; lia|cbn; lia|].
+  destruct (ea <? eb) eqn:E1; [|destruct (eb <? ea) eqn:E2]; rewrite !vested_sum_cons.
+  - rewrite IHa, vested_sum_cons. lia.
+  - rewrite IHb, vested_sum_cons. lia.
+  - rewrite IHa. zb. assert (ea = eb) by lia. subst. destruct (eb <? c); lia.
+Qed.
+
+Lemma merge_all_ge c a : forall b, all_ge c a -> all_ge c b -> all_ge c (merge a b).
+Proof.
+  merge_ind a b IHa IHb; intros Ha Hb; [assumption|assumption|].
+  assert (Ha0 : c <= ea) by (apply (Ha ea xa); left; reflexivity).
+  assert (Hb0 : c <= eb) by (apply (Hb eb xb); left; reflexivity).
+  assert (Ha' : all_ge c a) by (intros x y Hin; apply (Ha x y); right; assumption).
+  assert (Hb' : all_ge c b) by (intros x y Hin; apply (Hb x y); right; assumption).
+  destruct (ea <? eb); [|destruct (eb <? ea)]; intros x y [Heq|Hin].
+  - inversion Heq; subst; assumption.
+  - apply (IHa _ Ha' Hb x y Hin).
+  - inversion Heq; subst; assumption.
+  - apply (IHb Ha Hb' x y Hin).
+  - inversion Heq; subst; assumption.
+  - apply (IHa _ Ha' Hb' x y Hin).
+Qed.
+
+Lemma merge_sorted a : forall b, sorted a -> sorted b -> sorted (merge a b).
+Proof.
+  merge_ind a b IHa IHb; intros Ha Hb; [assumption|assumption|].
+  destruct (sorted_tail _ _ _ Ha) as [Ha1 Ha2]. destruct (sorted_tail _ _ _ Hb) as [Hb1 Hb2].
+  destruct (ea <? eb) eqn:E1; [|destruct (eb <? ea) eqn:E2]; zb.
+  - apply sorted_cons; [|apply IHa; assumption].
+    apply merge_all_ge; [assumption|].
+    intros x y [Heq|Hin]; [inversion Heq; subst; lia|]. specialize (Hb2 x y Hin). lia.
+  - apply sorted_cons; [|apply IHb; assumption].
+    apply merge_all_ge; [|assumption].
+    intros x y [Heq|Hin]; [inversion Heq; subst; lia|]. specialize (Ha2 x y Hin). lia.
+  - apply sorted_cons; [|apply IHa; assumption].
+    apply merge_all_ge; [assumption|]. apply (all_ge_weaken eb); [lia|assumption].
+Qed.
+
+Lemma merge_nonneg a : forall b, nonneg a -> nonneg b -> nonneg (merge a b).
+Proof.
+  merge_ind a b IHa IHb; intros Ha Hb; [assumption|assumption|].
+  apply nonneg_cons in Ha. apply nonneg_cons in Hb. destruct Ha as [Ha0 Ha'], Hb as [Hb0 Hb'].
+  destruct (ea <? eb); [|destruct (eb <? ea)]; apply nonneg_cons; split; try lia.
+  - apply IHa; [assumption|apply nonneg_cons; auto].
+  - apply IHb; [apply nonneg_cons; auto|assumption].
+  - apply IHa; assumption.
+Qed.
+
+(* ------------------------------------------------------------------------------------------ *)
+(* the schedule generator *)
+
+Section Sched.
+  Variables sum vbegin period step unit offset : Z.
+  Hypothesis Hsum : 0 <= sum.
+  Hypothesis Hper : 0 < period.
+  Hypothesis Hstep : 0 < step.
+  Hypothesis Hunit : 0 < unit.
+
+  Let q (e : Z) : Z := quantize_up unit offset e.
+  (* cumulative amount that has left the schedule once the entry at epoch ve has vested *)
+  Definition cumt (ve : Z) : Z := if ve - vbegin <? period then sum * (ve - vbegin) / period else sum.
+  Let gen (f : nat) (vsf ep : Z) : table := gen_new f sum vbegin period step unit offset vsf ep.
+
+  Lemma gen_S f vsf ep :
+    gen (S f) vsf ep =
+    if sum <=? vsf then [] else
+    (q (ep + step), cumt (q (ep + step)) - vsf) :: gen f (cumt (q (ep + step))) (ep + step).
+  Proof. reflexivity. Qed.
+
+  Lemma q_ge e : e <= q e.
+  Proof. apply quantize_up_ge. assumption. Qed.
+  Lemma q_lt e : q e < e + unit.
+  Proof. apply quantize_up_lt. assumption. Qed.
+  Lemma q_mono a b : a <= b -> q a <= q b.
+  Proof. apply quantize_up_mono. assumption. Qed.
+
+  Lemma div_mono a b : a <= b -> sum * a / period <= sum * b / period.
+  Proof.
+    intros H. apply Z.div_le_mono; [assumption|]. apply Z.mul_le_mono_nonneg_l; assumption.
+  Qed.
+  Lemma div_full a : period <= a -> sum <= sum * a / period.
+  Proof.
+    intros H. pose proof (div_mono period a H) as Hm. rewrite Z.div_mul in Hm by lia. exact Hm.
+  Qed.
+  Lemma div_nonneg a : 0 <= a -> 0 <= sum * a / period.
+  Proof. intros H. apply Z.div_pos; [|assumption]. apply Z.mul_nonneg_nonneg; assumption. Qed.
+  Lemma div_below a : a < period -> 0 < sum -> sum * a / period < sum.
+  Proof.
+    intros H Hs. apply Z.div_lt_upper_bound; [assumption|].
+    rewrite (Z.mul_comm period sum). apply Z.mul_lt_mono_pos_l; assumption.
+  Qed.
+  Lemma div_le_sum a : a <= period -> sum * a / period <= sum.
+  Proof.
+    intros H. pose proof (div_mono a period H) as Hm. rewrite Z.div_mul in Hm by lia. exact Hm.
+  Qed.
+
+  Lemma cumt_bounds v : vbegin <= v -> 0 <= cumt v <= sum.
+  Proof.
+    intros H. unfold cumt. destruct (v - vbegin <? period) eqn:E; zb; [|lia].
+    split; [apply div_nonneg; lia|apply div_le_sum; lia].
+  Qed.
+  Lemma cumt_mono v1 v2 : vbegin <= v1 -> v1 <= v2 -> cumt v1 <= cumt v2.
+  Proof.
+    intros H1 H2. unfold cumt.
+    destruct (v1 - vbegin <? period) eqn:E1, (v2 - vbegin <? period) eqn:E2; zb; try lia.
+    - apply div_mono; lia.
+    - apply div_le_sum; lia.
+  Qed.
+  Lemma cumt_full v : period <= v - vbegin -> cumt v = sum.
+  Proof. intros H. unfold cumt. destruct (v - vbegin <? period) eqn:E; zb; lia. Qed.
+
+  Lemma gen_all_ge f : forall vsf ep, all_ge (q (ep + step)) (gen f vsf ep).
+  Proof.
+    induction f as [|f IH]; intros vsf ep; [intros e a []|].
+    rewrite gen_S. destruct (sum <=? vsf); [intros e a []|].
+    intros e a [Heq|Hin]; [inversion Heq; subst; lia|].
+    specialize (IH _ _ e a Hin). pose proof (q_mono (ep + step) (ep + step + step) ltac:(lia)). lia.
+  Qed.
+
+  Lemma gen_sorted f : forall vsf ep, sorted (gen f vsf ep).
+  Proof.
+    induction f as [|f IH]; intros vsf ep; [exact I|].
+    rewrite gen_S. destruct (sum <=? vsf); [exact I|].
+    apply sorted_cons; [|apply IH].
+    apply (all_ge_weaken (q (ep + step + step))); [apply q_mono; lia|apply gen_all_ge].
+  Qed.
+
+  Lemma gen_nonneg f : forall vsf ep,
+    vbegin <= ep -> vsf <= cumt (q (ep + step)) -> nonneg (gen f vsf ep).
+  Proof.
+    induction f as [|f IH]; intros vsf ep Hep Hv; [constructor|].
+    rewrite gen_S. destruct (sum <=? vsf); [constructor|].
+    apply nonneg_cons. split; [lia|]. apply IH; [lia|].
+    pose proof (q_ge (ep + step)). apply cumt_mono; [lia|apply q_mono; lia].
+  Qed.
+
+  Lemma gen_sum f : forall vsf ep,
+    vbegin <= ep -> vsf <= sum -> (vsf < sum -> ep - vbegin < period) ->
+    period <= ep - vbegin + Z.of_nat f * step ->
+    tbl_sum (gen f vsf ep) = sum - vsf.
+  Proof.
+    induction f as [|f IH]; intros vsf ep Hep Hv Hprog Hfuel.
+    - cbn [gen gen_new tbl_sum fold_right]. cbn in Hfuel. lia.
+    - rewrite gen_S. destruct (sum <=? vsf) eqn:E; zb; [cbn; lia|].
+      rewrite tbl_sum_cons. pose proof (q_ge (ep + step)) as Hq.
+      pose proof (cumt_bounds (q (ep + step)) ltac:(lia)) as Hb.
+      rewrite IH; [lia|lia|lia| |].
+      + intros Hlt. destruct (Z_lt_ge_dec (ep + step - vbegin) period) as [|Hge]; [assumption|].
+        rewrite cumt_full in Hlt by lia. lia.
+      + rewrite Nat2Z.inj_succ in Hfuel. lia.
+  Qed.
+
+  Lemma gen_on_grid f : forall vsf ep x a, In (x, a) (gen f vsf ep) -> q x = x.
+  Proof.
+    induction f as [|f IH]; intros vsf ep x a; [intros []|].
+    rewrite gen_S. destruct (sum <=? vsf); [intros []|].
+    intros [Heq|Hin]; [|apply (IH _ _ _ _ Hin)].
+    inversion Heq; subst. apply quantize_up_idem. assumption.
+  Qed.
+
+  Variable e : Z.   (* the epoch at which unlock_vested_funds is called *)
+
+  Definition upper : Z := Z.min sum (sum * Z.max 0 (e - vbegin) / period).
+  Definition lower : Z := Z.min sum (sum * (e - vbegin - step - unit) / period).
+
+  Lemma cumt_le_upper v : vbegin <= v -> v < e -> cumt v <= upper.
+  Proof.
+    intros H1 H2. unfold upper. rewrite Z.max_r by lia. apply Z.min_glb.
+    - apply cumt_bounds; assumption.
+    - unfold cumt. destruct (v - vbegin <? period) eqn:E; zb; [apply div_mono; lia|apply div_full; lia].
+  Qed.
+
+  Lemma upper_nonneg : 0 <= upper.
+  Proof. unfold upper. apply Z.min_glb; [assumption|]. apply div_nonneg. lia. Qed.
+
+  Lemma gen_upper f : forall vsf ep,
+    vbegin <= ep -> vsf + vested_sum (gen f vsf ep) e <= Z.max vsf upper.
+  Proof.
+    induction f as [|f IH]; intros vsf ep Hep; [cbn; lia|].
+    rewrite gen_S. destruct (sum <=? vsf); [cbn; lia|].
+    rewrite vested_sum_cons. pose proof (q_ge (ep + step)) as Hq.
+    destruct (q (ep + step) <? e) eqn:E; zb.
+    - specialize (IH (cumt (q (ep + step))) (ep + step) ltac:(lia)).
+      pose proof (cumt_le_upper (q (ep + step)) ltac:(lia) E). lia.
+    - rewrite (all_ge_vested e); [lia|].
+      apply (all_ge_weaken (q (ep + step + step))); [|apply gen_all_ge].
+      pose proof (q_mono (ep + step) (ep + step + step) ltac:(lia)). lia.
+  Qed.
+
+  Lemma gen_lower f : forall vsf ep,
+    vbegin <= ep ->
+    Z.min sum (sum * (ep - vbegin) / period) <= vsf ->
+    vsf <= cumt (q (ep + step)) ->
+    period <= ep - vbegin + Z.of_nat f * step ->
+    lower <= vsf + vested_sum (gen f vsf ep) e.
+  Proof.
+    induction f as [|f IH]; intros vsf ep Hep HK HJ Hfuel.
+    - cbn [gen gen_new vested_sum fold_right]. cbn in Hfuel.
+      pose proof (div_full (ep - vbegin) ltac:(lia)). unfold lower. lia.
+    - rewrite gen_S. destruct (sum <=? vsf) eqn:E0; zb; [unfold lower; cbn; lia|].
+      rewrite vested_sum_cons. pose proof (q_ge (ep + step)) as Hq. pose proof (q_lt (ep + step)) as Hq'.
+      destruct (q (ep + step) <? e) eqn:E; zb.
+      + assert (lower <= cumt (q (ep + step)) + vested_sum (gen f (cumt (q (ep + step))) (ep + step)) e); [|lia].
+        apply IH; [lia| | |rewrite Nat2Z.inj_succ in Hfuel; lia].
+        * unfold cumt. destruct (q (ep + step) - vbegin <? period) eqn:E2; zb; [|lia].
+          pose proof (div_mono (ep + step - vbegin) (q (ep + step) - vbegin) ltac:(lia)). lia.
+        * apply cumt_mono; [lia|apply q_mono; lia].
+      + rewrite (all_ge_vested e).
+        * pose proof (div_mono (e - vbegin - step - unit) (ep - vbegin) ltac:(lia)). unfold lower. lia.
+        * apply (all_ge_weaken (q (ep + step + step))); [|apply gen_all_ge].
+          pose proof (q_mono (ep + step) (ep + step + step) ltac:(lia)). lia.
+  Qed.
+End Sched.
+
+(* ------------------------------------------------------------------------------------------ *)
+(* new_schedule: the schedule add_locked_funds merges into the table *)
+
+Definition spec_ok (sp : vspec) : Prop :=
+  0 <= initial_delay sp /\ 0 < vest_period sp /\ 0 < step_duration sp /\ 0 < quantization sp.
+
+Lemma sched_fuel_enough sp :
+  spec_ok sp -> vest_period sp <= Z.of_nat (sched_fuel sp) * step_duration sp.
+Proof.
+  intros (_ & Hp & Hs & _). unfold sched_fuel.
+  pose proof (Z.div_pos (vest_period sp) (step_duration sp) ltac:(lia) Hs).
+  rewrite Z2Nat.id by lia. rewrite Z.max_r by lia.
+  pose proof (Z.div_mod (vest_period sp) (step_duration sp) ltac:(lia)).
+  pose proof (Z.mod_pos_bound (vest_period sp) (step_duration sp) Hs). nia.
+Qed.
+
+Section NewSchedule.
+  Variables (cur sum pps : Z) (sp : vspec).
+  Hypothesis Hok : spec_ok sp.
+  Hypothesis Hsum : 0 <= sum.
+  Let vbegin := cur + initial_delay sp.
+  Let new := new_schedule cur sum pps sp.
+
+  Lemma new_schedule_sum : tbl_sum new = sum.
+  Proof.
+    destruct Hok as (Hd & Hp & Hs & Hq). unfold new, new_schedule.
+    rewrite (gen_sum sum _ _ _ _ pps Hsum Hp Hs Hq); try lia.
+    pose proof (sched_fuel_enough sp Hok). fold vbegin. lia.
+  Qed.
+
+  Lemma new_schedule_sorted : sorted new.
+  Proof. destruct Hok as (Hd & Hp & Hs & Hq). apply gen_sorted; assumption. Qed.
+
+  Lemma new_schedule_nonneg : nonneg new.
+  Proof.
+    destruct Hok as (Hd & Hp & Hs & Hq). apply gen_nonneg; try assumption; [lia|].
+    apply cumt_bounds; try assumption. pose proof (quantize_up_ge (quantization sp) pps (cur + initial_delay sp + step_duration sp) Hq). lia.
+  Qed.
+
+  (* every entry lies strictly after the current epoch, on the quantisation grid *)
+  Lemma new_schedule_after : all_ge (cur + initial_delay sp + step_duration sp) new.
+  Proof.
+    destruct Hok as (Hd & Hp & Hs & Hq).
+    apply (all_ge_weaken (quantize_up (quantization sp) pps (cur + initial_delay sp + step_duration sp))).
+    - apply quantize_up_ge. assumption.
+    - apply gen_all_ge; assumption.
+  Qed.
+
+  Lemma new_schedule_upper e :
+    vested_sum new e <= Z.min sum (sum * Z.max 0 (e - vbegin) / vest_period sp).
+  Proof.
+    destruct Hok as (Hd & Hp & Hs & Hq).
+    pose proof (gen_upper sum vbegin _ _ _ pps Hsum Hp Hs Hq e (sched_fuel sp) 0 vbegin ltac:(lia)) as H.
+    pose proof (upper_nonneg sum vbegin _ Hsum Hp e). unfold upper in *. unfold new, new_schedule. fold vbegin. lia.
+  Qed.
+
+  Lemma new_schedule_lower e :
+    Z.min sum (sum * (e - vbegin - step_duration sp - quantization sp) / vest_period sp) <= vested_sum new e.
+  Proof.
+    destruct Hok as (Hd & Hp & Hs & Hq).
+    pose proof (gen_lower sum vbegin _ _ _ pps Hsum Hp Hs Hq e (sched_fuel sp) 0 vbegin ltac:(lia)) as H.
+    unfold lower in H. unfold new, new_schedule. fold vbegin.
+    replace (vbegin - vbegin) with 0 in H by lia. rewrite Z.mul_0_r, Z.div_0_l in H by lia.
+    pose proof (sched_fuel_enough sp Hok).
+    apply H; [lia| |lia].
+    apply cumt_bounds; try assumption.
+    pose proof (quantize_up_ge (quantization sp) pps (vbegin + step_duration sp) Hq). lia.
+  Qed.
+
+  Lemma new_schedule_complete e :
+    vbegin + vest_period sp + step_duration sp + quantization sp <= e -> vested_sum new e = sum.
+  Proof.
+    intros He. destruct Hok as (Hd & Hp & Hs & Hq).
+    pose proof (new_schedule_upper e). pose proof (new_schedule_lower e).
+    pose proof (div_full sum (vest_period sp) Hsum Hp (e - vbegin - step_duration sp - quantization sp) ltac:(lia)).
+    lia.
+  Qed.
+
+  Lemma new_schedule_on_grid e a :
+    In (e, a) new -> quantize_up (quantization sp) pps e = e.
+  Proof.
+    destruct Hok as (Hd & Hp & Hs & Hq). unfold new, new_schedule.
+    apply (gen_on_grid sum _ _ _ _ pps Hq).
+  Qed.
+End NewSchedule.
+
+(* ------------------------------------------------------------------------------------------ *)
+(* the three operations *)
+
+Lemma add_locked_funds_spec t cur sum pps sp t' u :
+  wf t -> spec_ok sp -> 0 <= sum ->
+  add_locked_funds t cur sum pps sp = (t', u) ->
+  u = vested_sum t cur /\ wf t' /\ all_ge cur t' /\
+  tbl_sum t' = tbl_sum t - u + sum /\
+  unvested_sum t' cur = unvested_sum t cur + sum /\
+  (forall e, cur <= e ->
+     vested_sum t' e = (vested_sum t e - vested_sum t cur) + vested_sum (new_schedule cur sum pps sp) e).
+Proof.
+  intros [Hs Hn] Hok Hsum. unfold add_locked_funds.
+  set (new := new_schedule cur sum pps sp).
+  pose proof (load_wf t (conj Hs Hn)) as [Hls Hln].
+  assert (Hms : sorted (merge (load t) new)) by (apply merge_sorted; [assumption|apply new_schedule_sorted; assumption]).
+  assert (Hmn : nonneg (merge (load t) new)) by (apply merge_nonneg; [assumption|apply new_schedule_nonneg; assumption]).
+  rewrite (take_vested_sorted cur _ Hms). intros Heq. inversion Heq; subst t' u; clear Heq.
+  assert (Hnew0 : vested_sum new cur = 0).
+  { apply all_ge_vested. apply (all_ge_weaken (cur + initial_delay sp + step_duration sp)).
+    - destruct Hok as (? & ? & ? & ?). lia.
+    - apply new_schedule_after; assumption. }
+  assert (Hu : vested_sum (merge (load t) new) cur = vested_sum t cur).
+  { rewrite merge_vested, load_vested, Hnew0 by assumption. lia. }
+  assert (Hsumm : tbl_sum (merge (load t) new) = tbl_sum t + sum).
+  { rewrite merge_sum, load_sum by assumption. unfold new. rewrite new_schedule_sum by assumption. lia. }
+  pose proof (sum_split (merge (load t) new) cur) as Hsp.
+  split; [exact Hu|]. split; [split; [apply from_epoch_sorted|apply from_epoch_nonneg]; assumption|].
+  split; [apply from_epoch_all_ge|].
+  assert (Ht' : tbl_sum (from_epoch cur (merge (load t) new)) = tbl_sum t - vested_sum t cur + sum).
+  { rewrite from_epoch_sum. lia. }
+  split; [rewrite Hu; exact Ht'|]. split.
+  - rewrite all_ge_unvested by apply from_epoch_all_ge. rewrite Ht'. pose proof (sum_split t cur). lia.
+  - intros e He. rewrite from_epoch_vested by assumption. rewrite !merge_vested, !load_vested by assumption.
+    fold new. lia.
+Qed.
+
+Lemma unlock_vested_funds_spec t cur t' u :
+  wf t -> unlock_vested_funds t cur = (t', u) ->
+  u = vested_sum t cur /\ wf t' /\ tbl_sum t' = tbl_sum t - u /\
+  pos t' = from_epoch cur (pos t) /\
+  unvested_sum t' cur = unvested_sum t cur /\
+  (forall e, cur <= e -> vested_sum t' e = vested_sum t e - u).
+Proof.
+  intros [Hs Hn]. unfold unlock_vested_funds. destruct t as [|[he ha] tl].
+  - intros Heq; inversion Heq; subst. cbn. repeat split; auto; try constructor; try (intros; lia).
+  - remember ((he, ha) :: tl) as t0 eqn:Et0.
+    destruct (he <? cur) eqn:E; zb.
+    + pose proof (load_wf _ (conj Hs Hn)) as [Hls Hln].
+      rewrite (take_vested_sorted cur _ Hls). intros Heq.
+      assert (Hu : u = vested_sum (load t0) cur) by congruence.
+      assert (Ht' : t' = from_epoch cur (load t0)) by congruence.
+      clear Heq. subst t' u.
+      rewrite load_vested by assumption.
+      split; [reflexivity|]. split; [split; [apply from_epoch_sorted|apply from_epoch_nonneg]; assumption|].
+      split; [|split; [|split]].
+      * rewrite from_epoch_sum, load_unvested by assumption.
+        pose proof (sum_split t0 cur). lia.
+      * rewrite pos_from_epoch, pos_load by assumption. reflexivity.
+      * rewrite all_ge_unvested by apply from_epoch_all_ge.
+        rewrite from_epoch_sum, load_unvested by assumption. reflexivity.
+      * intros e He. rewrite from_epoch_vested, !load_vested by assumption. reflexivity.
+    + intros Heq.
+      assert (Hu : u = 0) by congruence. assert (Ht' : t' = t0) by congruence. clear Heq. subst t' u.
+      assert (Hall : all_ge cur t0).
+      { subst t0. destruct (sorted_tail _ _ _ Hs) as [_ Hge].
+        intros x y [Hx|Hin]; [inversion Hx; subst; lia|]. specialize (Hge x y Hin). lia. }
+      rewrite (all_ge_vested cur _ Hall).
+      split; [reflexivity|]. split; [split; assumption|]. split; [lia|].
+      split; [|split; [reflexivity|intros; lia]].
+      rewrite from_epoch_id; [reflexivity|]. apply pos_all_ge. assumption.
+Qed.
+
+Lemma slow_unlock_spec cur l : forall target v u r v' u',
+  sorted l -> nonneg l -> 0 <= target ->
+  slow_unlock cur target v u l = (r, v', u') ->
+  v' = v + vested_sum l cur /\
+  u' = u + Z.min target (unvested_sum l cur) /\
+  wf r /\ all_ge cur r /\
+  tbl_sum r = unvested_sum l cur - Z.min target (unvested_sum l cur).
+Proof.
+  induction l as [|[e a] tl IH]; intros target v u r v' u' Hs Hn Ht.
+  - cbn [slow_unlock vested_sum unvested_sum fold_right]. intros Heq; inversion Heq; subst.
+    rewrite Z.min_r by lia.
+    split; [lia|]. split; [lia|]. split; [split; constructor|]. split; [intros x y []|]. cbn. lia.
+  - destruct (sorted_tail _ _ _ Hs) as [Hs' Hge]. apply nonneg_cons in Hn. destruct Hn as [Ha Hn'].
+    cbn [slow_unlock]. rewrite vested_sum_cons, unvested_sum_cons.
+    destruct (e <? cur) eqn:E; zb.
+    + intros Heq. destruct (IH _ _ _ _ _ _ Hs' Hn' Ht Heq) as (A & B & C & D & F).
+      repeat split; try assumption; try apply C; lia.
+    + assert (Hall : all_ge cur tl) by (apply (all_ge_weaken e); assumption).
+      pose proof (nonneg_unvested tl cur Hn') as Hunv.
+      rewrite (all_ge_vested cur tl Hall).
+      destruct (a <? target) eqn:E2; zb.
+      * intros Heq. assert (Ht' : 0 <= target - a) by lia.
+        destruct (IH _ _ _ _ _ _ Hs' Hn' Ht' Heq) as (A & B & C & D & F).
+        rewrite (all_ge_vested cur tl Hall) in A.
+        repeat split; try assumption; try apply C; lia.
+      * intros Heq; inversion Heq; subst r v' u'; clear Heq.
+        split; [lia|]. split; [lia|]. split; [|split].
+        -- split; [apply sorted_cons; assumption|apply nonneg_cons; split; [lia|assumption]].
+        -- intros x y [Hx|Hin]; [inversion Hx; subst; lia|apply (Hall x y Hin)].
+        -- rewrite tbl_sum_cons. rewrite (all_ge_unvested cur tl Hall) in *. lia.
+Qed.
+
+Lemma unlock_both_spec t cur target t' v u :
+  wf t -> 0 <= target ->
+  unlock_vested_and_unvested_funds t cur target = (t', v, u) ->
+  v = vested_sum t cur /\ u = Z.min target (unvested_sum t cur) /\
+  wf t' /\ tbl_sum t' = tbl_sum t - v - u /\
+  vested_sum t' cur = 0 /\ unvested_sum t' cur = unvested_sum t cur - u.
+Proof.
+  intros [Hs Hn] Ht. unfold unlock_vested_and_unvested_funds. destruct t as [|[he ha] tl].
+  - intros Heq; inversion Heq; subst. cbn. repeat split; try constructor; lia.
+  - destruct ((cur <=? he) && (target <=? ha)) eqn:E.
+    + zb. intros Heq; inversion Heq; subst t' v u; clear Heq.
+      destruct (sorted_tail _ _ _ Hs) as [Hs' Hge]. apply nonneg_cons in Hn. destruct Hn as [Ha Hn'].
+      assert (Hall : all_ge cur tl) by (apply (all_ge_weaken he); assumption).
+      pose proof (nonneg_unvested tl cur Hn').
+      rewrite !vested_sum_cons, !unvested_sum_cons, !tbl_sum_cons.
+      replace (he <? cur) with false by (symmetry; apply Z.ltb_ge; lia).
+      rewrite (all_ge_vested cur tl Hall).
+      split; [lia|]. split; [lia|]. split; [|repeat split; lia].
+      split; [apply sorted_cons; assumption|apply nonneg_cons; split; [lia|assumption]].
+    + intros Heq. pose proof (load_wf _ (conj Hs Hn)) as [Hls Hln].
+      destruct (slow_unlock_spec cur _ _ _ _ _ _ _ Hls Hln Ht Heq) as (A & B & C & D & F).
+      rewrite load_vested, load_unvested in * by assumption.
+      pose proof (sum_split ((he, ha) :: tl) cur).
+      split; [lia|]. split; [lia|]. split; [assumption|]. split; [lia|].
+      split; [apply all_ge_vested; assumption|]. rewrite all_ge_unvested by assumption. lia.
+Qed.
+
+(* after the last entry's epoch everything is unlocked: over time exactly the table's total unlocks *)
+Lemma unlock_all_eventually t cur t' u :
+  wf t -> (forall e a, In (e, a) t -> e < cur) ->
+  unlock_vested_funds t cur = (t', u) -> u = tbl_sum t /\ tbl_sum t' = 0 /\ pos t' = [].
+Proof.
+  intros Hwf Hall Heq. destruct (unlock_vested_funds_spec _ _ _ _ Hwf Heq) as (A & B & C & D & _).
+  assert (Hv : vested_sum t cur = tbl_sum t).
+  { clear -Hall. induction t as [|[e a] t IH]; [reflexivity|].
+    rewrite vested_sum_cons, tbl_sum_cons.
+    assert (e < cur) by (apply (Hall e a); left; reflexivity).
+    replace (e <? cur) with true by (symmetry; apply Z.ltb_lt; lia).
+    rewrite IH; [lia|]. intros x y Hin. apply (Hall x y). right. assumption. }
+  split; [lia|]. split; [lia|]. rewrite D.
+  clear -Hall. unfold pos, from_epoch. induction t as [|[e a] t IH]; [reflexivity|]. cbn [filter snd].
+  assert (e < cur) by (apply (Hall e a); left; reflexivity).
+  assert (IH' : filter (fun x : fund => cur <=? fst x) (filter (fun x : fund => 0 <? snd x) t) = [])
+    by (apply IH; intros x y Hin; apply (Hall x y); right; assumption).
+  destruct (0 <? a); [|exact IH']. cbn [filter fst].
+  replace (cur <=? e) with false by (symmetry; apply Z.leb_gt; lia). exact IH'.
 Qed.
